@@ -3,7 +3,7 @@
    (no null, objects without the members "$schema", "id", "headers"), the verdict of the pipeline model L1 is the
    draft-4 verdict L0, for every oracle and every numeric implementation whose order is total.
    The excluded shapes are exactly where the recorded finding classes live, plus the keywords not proved yet. *)
-From Coq Require Import List ZArith Bool Lia.
+From Coq Require Import List ZArith Bool Lia Btauto.
 From Verif Require Import Base.Sx Base.GoVal Schema.Ast Schema.Build Schema.Pipeline Schema.Draft4 Schema.PipelineFacts Schema.PipelineTerm.
 Import ListNotations.
 Open Scope Z_scope.
@@ -114,6 +114,12 @@ Qed.
 Lemma contains_existsb x l : contains x l = existsb (fun t => Z.eqb t x) l.
 Proof. induction l as [|y t IH]; [reflexivity|]. cbn [contains existsb]. rewrite IH, (Z.eqb_sym x y). reflexivity. Qed.
 
+Lemma forallb_ext_in {A} (f g : A -> bool) l : (forall x, In x l -> f x = g x) -> forallb f l = forallb g l.
+Proof. induction l as [|x t IH]; intros H; [reflexivity|]. cbn [forallb]. rewrite (H x (or_introl eq_refl)), IH; [reflexivity|]. intros y Hy. apply H. right; exact Hy. Qed.
+
+Lemma forallb_andb_pointwise {A} (f g : A -> bool) l : forallb (fun x => f x && g x) l = forallb f l && forallb g l.
+Proof. induction l as [|x t IH]; [reflexivity|]. cbn [forallb]. rewrite IH. btauto. Qed.
+
 Lemma existsb_ext {A} (f g : A -> bool) l : (forall x, f x = g x) -> existsb f l = existsb g l.
 Proof. intros H. induction l as [|x t IH]; [reflexivity|]. cbn [existsb]. rewrite H, IH. reflexivity. Qed.
 
@@ -129,7 +135,7 @@ Proof. induction l as [|x t IH]; [reflexivity|]. cbn [existsb]. rewrite IH. dest
 (* 5.5.2: with no format and no nullable, the type validator decides membership of the instance's type *)
 Lemma type_agree p types d : jd d ->
   (if type_applies types 0 then r_valid (type_validate N p types false 0 d) else true) =
-  (match types with [] => true | ts => existsb (fun t => has_type N t d) ts end).
+  (match types with [] => true | t0 :: ts => existsb (fun t => has_type N t d) (t0 :: ts) end).
 Proof.
   intros Hd. unfold type_applies. cbn [Z.eqb negb orb]. destruct types as [|t0 ts]; [reflexivity|]. cbn [length Nat.eqb negb].
   set (tys := t0 :: ts).
@@ -155,4 +161,604 @@ Proof.
     transitivity (contains k_object tys); [|rewrite contains_existsb; apply existsb_ext; intros; reflexivity].
     destruct (contains k_number tys), (contains k_integer tys), (contains k_object tys); reflexivity.
 Qed.
+
+(* 5.5.1 *)
+Lemma enum_agree p s d : jd d -> Forall jd (s_enum s) ->
+  (match common_validate N p s d with None => true | Some r => r_valid r end) = enum_ok N s d.
+Proof.
+  intros Hd He. unfold common_validate, enum_ok. destruct (s_enum s) as [|e0 es] eqn:E; [reflexivity|].
+  assert (X : existsb (enum_match N d) (e0 :: es) = existsb (json_eq N d) (e0 :: es)).
+  { clear E. induction He as [|e t Hj Ht IH]; [reflexivity|]. cbn [existsb]. rewrite IH, (enum_match_json_eq d e Hd Hj). reflexivity. }
+  rewrite X. destruct (existsb (json_eq N d) (e0 :: es)); reflexivity.
+Qed.
+
+(* 5.1: on a JSON number the native dispatch is the float path *)
+Lemma number_agree p s is32 f : is32 = false ->
+  r_valid (number_validate N p s (VFlt is32 f)) = numeric_ok N s (VFlt is32 f).
+Proof.
+  intros ->.
+  assert (Fmax : forall m ex e, r_valid (if max_native N (VFlt false f) m ex then merge new_res (Some (s_err e)) else new_res)
+                             = (if ex then n_lt N f m else n_le N f m)).
+  { intros m ex e. unfold max_native, as_float64, max_float. destruct ex.
+    - rewrite (Hord f m). destruct (n_le N m f); reflexivity.
+    - rewrite (Hord' f m). destruct (n_lt N m f); reflexivity. }
+  assert (Fmin : forall m ex e, r_valid (if min_native N (VFlt false f) m ex then merge new_res (Some (s_err e)) else new_res)
+                             = (if ex then n_lt N m f else n_le N m f)).
+  { intros m ex e. unfold min_native, as_float64, min_float. destruct ex.
+    - rewrite (Hord m f). destruct (n_le N f m); reflexivity.
+    - rewrite (Hord' m f). destruct (n_lt N f m); reflexivity. }
+  assert (Fmul : forall m e1 e2, r_valid (match mult_native N (VFlt false f) m with
+                                          | MOk => new_res
+                                          | MNotMultiple => merge new_res (Some (s_err e1))
+                                          | MNotPositive => merge new_res (Some (s_err e2))
+                                          end) = match n_mult_of N f m with MOk => true | _ => false end).
+  { intros m e1 e2. unfold mult_native, as_float64. destruct (n_mult_of N f m); reflexivity. }
+  unfold number_validate, numeric_ok. rewrite r_valid_inc, !r_valid_merge.
+  destruct (s_multiple_of s) as [mu|], (s_minimum s) as [mn|], (s_maximum s) as [mx|];
+    rewrite ?Fmax, ?Fmin, ?Fmul; cbn [r_valid new_res r_errs andb];
+    repeat match goal with
+           | |- context [if ?b then _ else _] => destruct b
+           | |- context [match n_mult_of N ?a ?b with _ => _ end] => destruct (n_mult_of N a b)
+           end; cbn [andb]; btauto.
+Qed.
+
+(* 5.2 *)
+Lemma string_agree p s x : (s_pattern s = 0 \/ o_re_ok OR (s_pattern s) = true) ->
+  (match string_validate OR p s (VStr x) with None => true | Some r => r_valid r end) &&
+  (if format_applies OR s (VStr x) then match format_validate OR p s (VStr x) with Ok r => r_valid r | _ => true end else true)
+  = string_ok OR s (VStr x).
+Proof.
+  intros Hp. unfold string_validate, string_ok, format_applies, format_validate. cbn [is_string_kind andb].
+  assert (A : forall a b : bool, (if a then false else if b then false else true) = negb a && negb b) by (intros [|] [|]; reflexivity).
+  assert (Hlen : (match s_max_length s with Some m => o_rune_len OR x <=? m | None => true end) =
+                 negb (match s_max_length s with Some m => m <? o_rune_len OR x | None => false end)).
+  { destruct (s_max_length s) as [m|]; [|reflexivity]. rewrite Z.ltb_antisym, negb_involutive. reflexivity. }
+  assert (Hmin : (match s_min_length s with Some m => m <=? o_rune_len OR x | None => true end) =
+                 negb (match s_min_length s with Some m => o_rune_len OR x <? m | None => false end)).
+  { destruct (s_min_length s) as [m|]; [|reflexivity]. rewrite Z.ltb_antisym, negb_involutive. reflexivity. }
+  rewrite Hlen, Hmin.
+  destruct (match s_max_length s with Some m => m <? o_rune_len OR x | None => false end); [reflexivity|].
+  destruct (match s_min_length s with Some m => o_rune_len OR x <? m | None => false end); [reflexivity|]. cbn [negb andb].
+  assert (Hfmt : (if o_fmt_known OR (s_format s)
+                  then match (if o_fmt_check OR (s_format s) x then Ok new_res else Ok (r_add new_res [invalid_type p [s_format s] x])) with
+                       | Ok r => r_valid r | _ => true end
+                  else true) = (if o_fmt_known OR (s_format s) then o_fmt_check OR (s_format s) x else true)).
+  { destruct (o_fmt_known OR (s_format s)); [|reflexivity]. destruct (o_fmt_check OR (s_format s) x); reflexivity. }
+  rewrite Hfmt. destruct (Z.eqb_spec (s_pattern s) 0) as [e|ne]; [reflexivity|].
+  destruct Hp as [Hp | Hp]; [contradiction|]. rewrite Hp. cbn [negb]. destruct (o_re_match OR (s_pattern s) x); reflexivity.
+Qed.
+
+(* ------------------------------------------------------------------ the recursive groups *)
+
+Variable rec_sp : schema -> path -> path -> goval -> outcome res.
+Variable recd : schema -> goval -> option bool.
+
+(* the two recursions agree on a sub-schema: L1 returns a result, L0 a verdict, and they are the same verdict *)
+Definition goodc (c : schema) : Prop :=
+  forall p q d, jd d -> exists r, rec_sp c p q d = Ok r /\ recd c d = Some (r_valid r).
+
+Lemma all_opt_cons_some b l : all_opt (Some b :: l) = match all_opt l with Some c => Some (b && c) | None => None end.
+Proof. reflexivity. Qed.
+
+(* items: one schema for every element *)
+Lemma items_one_agree s1 p sl : goodc s1 -> forall l, Forall jd l -> forall i r,
+  exists r' b, slice_items_one rec_sp s1 p sl l i r = Ok r' /\ all_opt (map (recd s1) l) = Some b /\ r_valid r' = r_valid r && b.
+Proof.
+  intros Hg l Hl. induction Hl as [|v t Hv Ht IH]; intros i r.
+  - exists r, true. cbn. rewrite andb_true_r. auto.
+  - cbn [slice_items_one map]. destruct (Hg p (p ++ [SIdx i]) v Hv) as [x [Hx Hd]]. rewrite Hx. cbn [bind].
+    destruct (IH (i + 1) (merge_for_slice r sl i x)) as [r' [b [H1 [H2 H3]]]].
+    exists r', (r_valid x && b). split; [exact H1|]. split.
+    + rewrite Hd, all_opt_cons_some, H2. reflexivity.
+    + rewrite H3, r_valid_merge_for_slice, andb_assoc. reflexivity.
+Qed.
+
+(* items: positional schemas *)
+Lemma items_tuple_agree p sl : forall ss, Forall goodc ss -> forall l, Forall jd l -> forall i r,
+  exists r' b, slice_items_tuple rec_sp ss p sl l i r = Ok r' /\
+               all_opt (map (fun sv => recd (fst sv) (snd sv)) (combine ss l)) = Some b /\ r_valid r' = r_valid r && b.
+Proof.
+  induction ss as [|s1 st IH]; intros Hs l Hl i r.
+  - exists r, true. destruct l; cbn; rewrite andb_true_r; auto.
+  - destruct l as [|v t]; [exists r, true; cbn; rewrite andb_true_r; auto|].
+    inversion Hs as [|x xs Hg Hgs]; subst. inversion Hl as [|y ys Hv Ht]; subst.
+    cbn [slice_items_tuple combine map fst snd]. unfold rec. destruct (Hg (p ++ [SIdx i]) (p ++ [SIdx i]) v Hv) as [x [Hx Hd]]. rewrite Hx. cbn [bind].
+    destruct (IH Hgs t Ht (i + 1) (merge_for_slice r sl i x)) as [r' [b [H1 [H2 H3]]]].
+    exists r', (r_valid x && b). split; [exact H1|]. split.
+    + rewrite Hd, all_opt_cons_some, H2. reflexivity.
+    + rewrite H3, r_valid_merge_for_slice, andb_assoc. reflexivity.
+Qed.
+
+(* additionalItems as a schema *)
+Lemma items_additional_agree sa p sl : goodc sa -> forall rest, Forall jd rest -> forall i r,
+  exists r' b, slice_additional rec_sp sa p sl rest i r = Ok r' /\ all_opt (map (recd sa) rest) = Some b /\ r_valid r' = r_valid r && b.
+Proof.
+  intros Hg rest Hl. induction Hl as [|v t Hv Ht IH]; intros i r.
+  - exists r, true. cbn. rewrite andb_true_r. auto.
+  - cbn [slice_additional map]. unfold rec. destruct (Hg (p ++ [SIdx i]) (p ++ [SIdx i]) v Hv) as [x [Hx Hd]]. rewrite Hx. cbn [bind].
+    destruct (IH (i + 1) (merge_for_slice r sl i x)) as [r' [b [H1 [H2 H3]]]].
+    exists r', (r_valid x && b). split; [exact H1|]. split.
+    + rewrite Hd, all_opt_cons_some, H2. reflexivity.
+    + rewrite H3, r_valid_merge_for_slice, andb_assoc. reflexivity.
+Qed.
+
+(* the shapes of the array keywords on which the two sides are compared *)
+Definition array_clean (s : schema) : Prop :=
+  s_unique s = false /\
+  (s_items_one s = None \/ s_items_tuple s = None) /\
+  s_items_tuple s <> Some [] /\
+  (forall sa, s_add_items s <> Some (false, Some sa)).
+
+Lemma Forall_skipn {A} (P : A -> Prop) n l : Forall P l -> Forall P (skipn n l).
+Proof. revert l; induction n as [|n IH]; intros l H; [exact H|]. destruct l; [constructor|]. inversion H; subst. apply IH. assumption. Qed.
+
+Lemma slice_agree p s id l : kids goodc s -> array_clean s -> Forall jd l ->
+  exists r, slice_validate N rec_sp p s (VArr id l) = Ok r /\ array_ok N recd s (VArr id l) = Some (r_valid r).
+Proof.
+  intros [K1 [K2 [K3 _]]] [Hu [Hex [Hne Hfa]]] Hl. unfold slice_validate, array_ok. rewrite Hu. cbn [andb].
+  set (size := Z.of_nat (length l)).
+  assert (Hsizes : forall r3,
+    r_valid (r_inc (match s_max_items s with
+                    | Some m => if m <? size then r_add (match s_min_items s with Some m0 => if size <? m0 then r_add r3 [mkMsg C_MIN_ITEMS p [m0]] else r3 | None => r3 end) [mkMsg C_MAX_ITEMS p [m]]
+                                else match s_min_items s with Some m0 => if size <? m0 then r_add r3 [mkMsg C_MIN_ITEMS p [m0]] else r3 | None => r3 end
+                    | None => match s_min_items s with Some m0 => if size <? m0 then r_add r3 [mkMsg C_MIN_ITEMS p [m0]] else r3 | None => r3 end
+                    end))
+    = (match s_max_items s with Some m => size <=? m | None => true end) && (match s_min_items s with Some m => m <=? size | None => true end) && true && r_valid r3).
+  { intros r3. rewrite r_valid_inc.
+    destruct (s_max_items s) as [mx|], (s_min_items s) as [mn|]; rewrite ?(Z.leb_antisym); cbn [andb];
+      repeat match goal with |- context [?a <? ?b] => destruct (a <? b) end; rewrite ?r_valid_add; cbn [negb andb]; btauto. }
+  destruct (s_items_one s) as [s1|] eqn:E1.
+  - (* one schema *)
+    destruct Hex as [Hex | Hex]; [discriminate|]. rewrite Hex. cbn [length Z.of_nat].
+    destruct (items_one_agree s1 p id (K1 s1 eq_refl) l Hl 0 new_res) as [r1 [b [H1 [H2 H3]]]]. rewrite H1. cbn [bind slice_items_tuple].
+    assert (Hr3 : exists r3, (match s_add_items s with
+                   | Some (allows, sa) =>
+                       if 0 <? size
+                       then match sa with
+                            | Some sa0 => if 0 <? 0 then slice_additional rec_sp sa0 p id (skipn 0 l) 0 (if (0 <? 0) && negb allows then r_add r1 [mkMsg C_NO_ADD_ITEMS [] []] else r1)
+                                          else Ok (if (0 <? 0) && negb allows then r_add r1 [mkMsg C_NO_ADD_ITEMS [] []] else r1)
+                            | None => Ok (if (0 <? 0) && negb allows then r_add r1 [mkMsg C_NO_ADD_ITEMS [] []] else r1)
+                            end
+                       else Ok r1
+                   | None => Ok r1
+                   end) = Ok r3 /\ r_valid r3 = r_valid r1).
+    { destruct (s_add_items s) as [[allows [sa|]]|]; cbn [Z.ltb Z.compare andb]; destruct (0 <? size); eexists; split; reflexivity. }
+    destruct Hr3 as [r3 [Hr3 Hv3]]. rewrite Hr3. cbn [bind]. eexists. split; [reflexivity|].
+    rewrite Hsizes, Hv3, H3, H2. cbn [all_opt r_valid new_res r_errs andb]. f_equal. btauto.
+  - (* a tuple, or no items *)
+    destruct (s_items_tuple s) as [ss|] eqn:E2.
+    + cbn [bind]. destruct ss as [|s0 st]; [contradiction Hne; reflexivity|].
+      destruct (items_tuple_agree p id (s0 :: st) (K2 _ eq_refl) l Hl 0 new_res) as [r2 [b [H1 [H2 H3]]]]. rewrite H1. cbn [bind].
+      set (tuple := s0 :: st) in *. set (isz := Z.of_nat (length tuple)).
+      assert (Hpos : 0 <? isz = true) by (unfold isz, tuple; cbn [length]; apply Z.ltb_lt; lia).
+      rewrite Hpos. cbn [andb].
+      assert (Hrest : (isz <? size) = negb (match skipn (length tuple) l with [] => true | _ => false end)).
+      { unfold isz, size. clear. revert l. induction (length tuple) as [|n IH]; intros l.
+        - destruct l; cbn [skipn length]; [reflexivity|]. apply Z.ltb_lt. lia.
+        - destruct l as [|x t]; [reflexivity|]. cbn [skipn length]. rewrite <- IH. rewrite !Nat2Z.inj_succ.
+          destruct (Z.ltb_spec (Z.of_nat n) (Z.of_nat (length t))), (Z.ltb_spec (Z.succ (Z.of_nat n)) (Z.succ (Z.of_nat (length t)))); try reflexivity; lia. }
+      destruct (s_add_items s) as [[allows [sa|]]|] eqn:E3.
+      * (* schema *) destruct allows; [|exfalso; apply (Hfa sa); reflexivity]. cbn [negb].
+        destruct (items_additional_agree sa p id (K3 _ _ eq_refl) (skipn (length tuple) l) (Forall_skipn jd _ l Hl) isz r2) as [r3 [b3 [G1 [G2 G3]]]].
+        destruct (isz <? size) eqn:Els.
+        -- rewrite G1. cbn [bind]. eexists. split; [reflexivity|]. rewrite Hsizes, G3, H3, H2, G2. cbn [all_opt r_valid new_res r_errs andb]. f_equal. btauto.
+        -- cbn [bind]. eexists. split; [reflexivity|]. rewrite Hsizes, H3, H2.
+           assert (Hnil : skipn (length tuple) l = []).
+           { rewrite Hrest in Els. destruct (skipn (length tuple) l); [reflexivity | discriminate]. }
+           rewrite Hnil. cbn [map all_opt r_valid new_res r_errs andb]. f_equal. btauto.
+      * (* additionalItems: true / false *)
+        destruct (isz <? size) eqn:Els; cbn [bind]; eexists; (split; [reflexivity|]); rewrite Hsizes, H2; rewrite Hrest in Els;
+          destruct allows; cbn [negb]; rewrite ?r_valid_add, ?H3; destruct (skipn (length tuple) l); try discriminate;
+          cbn [all_opt r_valid new_res r_errs andb negb]; f_equal; btauto.
+      * cbn [bind]. eexists. split; [reflexivity|]. rewrite Hsizes, H3, H2. cbn [all_opt r_valid new_res r_errs andb]. f_equal. btauto.
+    + (* no items: additionalItems is ignored by both *)
+      cbn [bind slice_items_tuple length Z.of_nat].
+      assert (Hr3 : exists r3, (match s_add_items s with
+                     | Some (allows, sa) =>
+                         if 0 <? size
+                         then match sa with
+                              | Some sa0 => if 0 <? 0 then slice_additional rec_sp sa0 p id (skipn 0 l) 0 (if (0 <? 0) && negb allows then r_add new_res [mkMsg C_NO_ADD_ITEMS [] []] else new_res)
+                                            else Ok (if (0 <? 0) && negb allows then r_add new_res [mkMsg C_NO_ADD_ITEMS [] []] else new_res)
+                              | None => Ok (if (0 <? 0) && negb allows then r_add new_res [mkMsg C_NO_ADD_ITEMS [] []] else new_res)
+                              end
+                         else Ok new_res
+                     | None => Ok new_res
+                     end) = Ok r3 /\ r_valid r3 = true).
+      { destruct (s_add_items s) as [[allows [sa|]]|]; cbn [Z.ltb Z.compare andb]; destruct (0 <? size); eexists; split; reflexivity. }
+      destruct Hr3 as [r3 [Hr3 Hv3]]. rewrite Hr3. cbn [bind]. eexists. split; [reflexivity|].
+      rewrite Hsizes, Hv3. cbn [all_opt andb]. f_equal; try btauto.
+Qed.
+
+(* ------------------------------------------------------------------ allOf / anyOf / not *)
+
+Lemma keep_relevant_valid x : r_valid x = true -> r_valid (keep_relevant x) = true.
+Proof. intros H. apply r_valid_nil in H. unfold keep_relevant, r_valid. cbn [r_errs]. rewrite H. reflexivity. Qed.
+
+Lemma count_true_goodc d : jd d -> forall vs, Forall goodc vs ->
+  exists c, count_true (map (fun c => recd c d) vs) = Some c /\ 0 <= c.
+Proof.
+  intros Hd vs Hvs. induction Hvs as [|s1 t Hg Ht [c [Hc Hpos]]]; [exists 0; split; [reflexivity | lia]|].
+  destruct (Hg [] [] d Hd) as [x [_ Hx]]. cbn [map count_true]. rewrite Hx, Hc.
+  destruct (r_valid x); eexists; split; try reflexivity; lia.
+Qed.
+
+Lemma any_of_agree p d : jd d -> forall vs, Forall goodc vs -> forall main keep best,
+  exists mk c, any_of rec_sp vs p d main keep best = Ok mk /\
+               count_true (map (fun c => recd c d) vs) = Some c /\
+               r_valid (fst mk) && r_valid (snd mk) = r_valid main && (0 <? c).
+Proof.
+  intros Hd vs Hvs. induction Hvs as [|s1 t Hg Ht IH]; intros main keep best.
+  - eexists. exists 0. cbn [any_of map count_true]. split; [reflexivity|]. split; [reflexivity|]. cbn [fst snd].
+    rewrite r_valid_merge, r_valid_add. cbn [Z.ltb Z.compare]. rewrite !andb_false_r. reflexivity.
+  - cbn [any_of map count_true]. unfold rec. destruct (Hg p p d Hd) as [x [Hx Hdx]]. rewrite Hx, Hdx. cbn [bind].
+    destruct (count_true_goodc d Hd t Ht) as [c [Hc Hpos]].
+    destruct (r_valid x) eqn:Ev.
+    + eexists. exists (c + 1). rewrite Hc. split; [reflexivity|]. split; [reflexivity|]. cbn [fst snd].
+      rewrite r_valid_merge, Ev. cbn [r_valid new_res r_errs]. replace (0 <? c + 1) with true by (symmetry; apply Z.ltb_lt; lia). btauto.
+    + assert (Hgen : forall best', exists mk c0, any_of rec_sp t p d main (merge keep (Some (keep_relevant x))) best' = Ok mk /\
+                       Some c = Some c0 /\ r_valid (fst mk) && r_valid (snd mk) = r_valid main && (0 <? c0)).
+      { intros best'. destruct (IH main (merge keep (Some (keep_relevant x))) best') as [mk [c0 [H1 [H2 H3]]]].
+        exists mk, c0. rewrite <- Hc, H2. auto. }
+      rewrite Hc. destruct best as [b|]; [destruct (r_mc b <? r_mc x)|];
+        match goal with |- exists mk c0, any_of _ _ _ _ _ _ ?bb = _ /\ _ => destruct (Hgen bb) as [mk' [c0' [H1 [H2 H3]]]] end;
+        exists mk', c0'; (split; [exact H1 | split; [exact H2 | exact H3]]).
+Qed.
+
+Lemma all_of_agree p d : jd d -> forall vs, Forall goodc vs -> forall main keep validated,
+  exists main' keep' validated' b, all_of rec_sp vs p d main keep validated = Ok (main', keep', validated') /\
+    all_opt (map (fun c => recd c d) vs) = Some b /\
+    r_valid main' = r_valid main && b /\
+    (b = true -> r_valid keep' = r_valid keep /\ validated' = validated + Z.of_nat (length vs)).
+Proof.
+  intros Hd vs Hvs. induction Hvs as [|s1 t Hg Ht IH]; intros main keep validated.
+  - exists main, keep, validated, true. cbn. rewrite andb_true_r, Z.add_0_r. auto.
+  - cbn [all_of map]. unfold rec. destruct (Hg p p d Hd) as [x [Hx Hdx]]. rewrite Hx, Hdx. cbn [bind].
+    destruct (IH (merge main (Some x)) (merge keep (Some (keep_relevant x))) (if r_valid x then validated + 1 else validated))
+      as [main' [keep' [validated' [b [H1 [H2 [H3 H4]]]]]]].
+    exists main', keep', validated', (r_valid x && b). split; [exact H1|]. split; [rewrite all_opt_cons_some, H2; reflexivity|].
+    split; [rewrite H3, r_valid_merge, andb_assoc; reflexivity|].
+    intros Hb. apply andb_true_iff in Hb. destruct Hb as [Hvx Hb]. destruct (H4 Hb) as [G1 G2]. split.
+    + rewrite G1, r_valid_merge, (keep_relevant_valid x Hvx), andb_true_r. reflexivity.
+    + rewrite G2, Hvx. cbn [length]. rewrite Nat2Z.inj_succ. lia.
+Qed.
+
+Definition comp_clean (s : schema) : Prop := s_one_of s = [] /\ s_deps s = [].
+
+Lemma props_agree p s d : kids goodc s -> comp_clean s -> jd d ->
+  exists r, props_validate rec_sp p s d = Ok r /\ composition_ok recd s d = Some (r_valid r).
+Proof.
+  intros [_ [_ [_ [_ [_ [_ [Kall [Kany [_ [Knot _]]]]]]]]]] [Hone Hdeps] Hd.
+  unfold props_validate, composition_ok. rewrite Hone, Hdeps. cbv zeta.
+  (* anyOf *)
+  assert (Hany : exists a bany, (match s_any_of s with
+                                 | [] => Ok (new_res, None)
+                                 | vs => do mk <- any_of rec_sp vs p d new_res new_res None; Ok (fst mk, Some (snd mk))
+                                 end) = Ok a /\
+                 (match s_any_of s with
+                  | [] => Some true
+                  | l => match count_true (map (fun c => recd c d) l) with Some c => Some (0 <? c) | None => None end
+                  end) = Some bany /\
+                 r_valid (fst a) && (match snd a with Some k => r_valid k | None => true end) = bany).
+  { destruct (s_any_of s) as [|v0 vt] eqn:E; [exists (new_res, None), true; auto|].
+    destruct (any_of_agree p d Hd (v0 :: vt) Kany new_res new_res None) as [mk [c [H1 [H2 H3]]]].
+    rewrite H1, H2. cbn [bind]. exists (fst mk, Some (snd mk)), (0 <? c). cbn [fst snd]. rewrite H3. auto. }
+  destruct Hany as [[main1 keep_any] [bany [Ha [Hda Hva]]]]. rewrite Ha, Hda. cbn [bind fst snd] in *.
+  (* allOf *)
+  assert (Hall : exists cc ball, (match s_all_of s with
+                                  | [] => Ok (main1, None)
+                                  | vs => do x <- all_of rec_sp vs p d main1 new_res 0;
+                                          let '(main', keep, validated) := x in
+                                          Ok (if Z.eqb validated 0 then r_add main' [mkMsg C_ALL_OF_NONE p []]
+                                              else if Z.eqb validated (Z.of_nat (length vs)) then main'
+                                              else r_add main' [mkMsg C_ALL_OF_SOME p []], Some keep)
+                                  end) = Ok cc /\
+                 all_opt (map (fun c => recd c d) (s_all_of s)) = Some ball /\
+                 r_valid (fst cc) && (match snd cc with Some k => r_valid k | None => true end) = r_valid main1 && ball).
+  { destruct (s_all_of s) as [|v0 vt] eqn:E; [exists (main1, None), true; cbn; rewrite !andb_true_r; auto|].
+    destruct (all_of_agree p d Hd (v0 :: vt) Kall main1 new_res 0) as [main' [keep' [validated' [b [H1 [H2 [H3 H4]]]]]]].
+    cbv zeta. rewrite H1, H2. cbn [bind]. eexists. exists b. split; [reflexivity|]. split; [reflexivity|]. cbn [fst snd].
+    destruct b.
+    - destruct (H4 eq_refl) as [G1 G2]. rewrite G2, G1. cbn [length]. rewrite Z.add_0_l, Nat2Z.inj_succ.
+      destruct (Z.eqb_spec (Z.succ (Z.of_nat (length vt))) 0) as [e|_]; [lia|]. rewrite Z.eqb_refl, H3. cbn [r_valid new_res r_errs]. btauto.
+    - rewrite andb_false_r in *.
+      assert (Hf : forall r0, r_valid r0 = false ->
+                r_valid (if validated' =? 0 then r_add main' [mkMsg C_ALL_OF_NONE p []]
+                         else if validated' =? Z.of_nat (length (v0 :: vt)) then main' else r_add main' [mkMsg C_ALL_OF_SOME p []]) = false).
+      { intros _ _. destruct (validated' =? 0); [rewrite r_valid_add, H3; reflexivity|].
+        destruct (validated' =? Z.of_nat (length (v0 :: vt))); [exact H3 | rewrite r_valid_add, H3; reflexivity]. }
+      rewrite (Hf main' H3). reflexivity. }
+  destruct Hall as [[main3 keep_all] [ball [Hc [Hdc Hvc]]]]. cbv zeta in Hc. rewrite Hc, Hdc. cbn [bind fst snd] in *.
+  (* not *)
+  assert (Hnot : exists main4 bnot, (match s_not s with
+                                     | None => Ok main3
+                                     | Some ns => do x <- rec rec_sp ns p d; Ok (if r_valid x then r_add main3 [mkMsg C_NOT p []] else main3)
+                                     end) = Ok main4 /\
+                 (match s_not s with None => Some true | Some ns => match recd ns d with Some b => Some (negb b) | None => None end end) = Some bnot /\
+                 r_valid main4 = r_valid main3 && bnot).
+  { destruct (s_not s) as [ns|] eqn:E; [|exists main3, true; rewrite andb_true_r; auto].
+    unfold rec. destruct (Knot ns eq_refl p p d Hd) as [x [Hx Hdx]]. rewrite Hx, Hdx. cbn [bind].
+    eexists. exists (negb (r_valid x)). split; [reflexivity|]. split; [reflexivity|].
+    destruct (r_valid x); [rewrite r_valid_add|]; cbn [negb]; btauto. }
+  destruct Hnot as [main4 [bnot [Hn [Hdn Hvn]]]]. rewrite Hn, Hdn. cbn [bind].
+  eexists. split; [reflexivity|]. cbn [all_opt]. f_equal.
+  rewrite !r_valid_merge, r_valid_inc, Hvn. cbn [andb].
+  rewrite <- Hva. symmetry.
+  transitivity ((r_valid main3 && match keep_all with Some k => r_valid k | None => true end) && bnot && match keep_any with Some k => r_valid k | None => true end);
+    [btauto|]. rewrite Hvc. btauto.
+Qed.
+
+(* ------------------------------------------------------------------ objects *)
+
+Definition V (c : schema) (d : goval) : bool := match recd c d with Some b => b | None => true end.
+
+Lemma goodc_V c p q d : goodc c -> jd d -> exists r, rec_sp c p q d = Ok r /\ r_valid r = V c d /\ recd c d = Some (V c d).
+Proof. intros Hg Hd. destruct (Hg p q d Hd) as [r [H1 H2]]. exists r. unfold V. rewrite H2. auto. Qed.
+
+Lemma lookup_val_member m k : lookup_val m k = lookup_member m k.
+Proof. induction m as [|[k' v] t IH]; [reflexivity|]. cbn [lookup_val lookup_member]. rewrite IH. reflexivity. Qed.
+
+Lemma lookup_val_in (m : list (str * goval)) k v : NoDup (map fst m) -> (lookup_val m k = Some v <-> In (k, v) m).
+Proof.
+  induction m as [|[k' v'] t IH]; intros Hnd; [split; [discriminate | intros []]|]. cbn [lookup_val map fst] in *. inversion Hnd as [|x xs Hx Hxs]; subst.
+  destruct (Z.eqb_spec k k') as [e|ne].
+  - subst. split; [intros H; inversion H; subst; left; reflexivity|]. intros [H | H]; [inversion H; reflexivity|].
+    exfalso. apply Hx. apply in_map_iff. exists (k', v). split; [reflexivity | exact H].
+  - rewrite (IH Hxs). split; [intros H; right; exact H | intros [H | H]; [inversion H; congruence | exact H]].
+Qed.
+
+Lemma lookup_schema_in (l : list (str * schema)) k c : NoDup (map fst l) -> (lookup_schema l k = Some c <-> In (k, c) l).
+Proof.
+  induction l as [|[k' c'] t IH]; intros Hnd; [split; [discriminate | intros []]|]. cbn [lookup_schema map fst] in *. inversion Hnd as [|x xs Hx Hxs]; subst.
+  destruct (Z.eqb_spec k' k) as [e|ne].
+  - subst. split; [intros H; inversion H; subst; left; reflexivity|]. intros [H | H]; [inversion H; reflexivity|].
+    exfalso. apply Hx. apply in_map_iff. exists (k, c). split; [reflexivity | exact H].
+  - rewrite (IH Hxs). split; [intros H; right; exact H | intros [H | H]; [inversion H; congruence | exact H]].
+Qed.
+
+(* iterating over the declared properties and looking the member up = iterating over the members and looking the property up *)
+Lemma swap_iteration (F : schema -> goval -> bool) (props : list (str * schema)) (m : list (str * goval)) :
+  NoDup (map fst props) -> NoDup (map fst m) ->
+  forallb (fun kv => match lookup_schema props (fst kv) with Some ps => F ps (snd kv) | None => true end) m =
+  forallb (fun kp => match lookup_val m (fst kp) with Some v => F (snd kp) v | None => true end) props.
+Proof.
+  intros Hp Hm. apply eq_true_iff_eq. rewrite !forallb_forall. split.
+  - intros H [k ps] Hin. cbn [fst snd]. destruct (lookup_val m k) as [v|] eqn:E; [|reflexivity].
+    apply (lookup_val_in m k v Hm) in E. specialize (H (k, v) E). cbn [fst snd] in H.
+    rewrite (proj2 (lookup_schema_in props k ps Hp) Hin) in H. exact H.
+  - intros H [k v] Hin. cbn [fst snd]. destruct (lookup_schema props k) as [ps|] eqn:E; [|reflexivity].
+    apply (lookup_schema_in props k ps Hp) in E. specialize (H (k, ps) E). cbn [fst snd] in H.
+    rewrite (proj2 (lookup_val_in m k v Hm) Hin) in H. exact H.
+Qed.
+
+Definition object_clean (s : schema) : Prop :=
+  s_pat_props s = [] /\
+  (forall k ps, In (k, ps) (s_props s) -> s_default ps = None) /\
+  NoDup (map fst (s_props s)) /\
+  (forall sa, s_add_props s <> Some (false, Some sa)).
+
+Definition plain_members (m : list (str * goval)) : Prop := Forall (fun kv => plain_key (fst kv) /\ jd (snd kv)) m.
+
+Lemma no_additional_agree s p m : s_pat_props s = [] -> plain_members m -> forall r,
+  r_valid (no_additional_properties OR s p m r) = r_valid r && forallb (fun kv => has_prop s (fst kv)) m.
+Proof.
+  intros Hpp Hm. induction Hm as [|[k v] t [[H1 [H2 H3]] _] Ht IH]; intros r; [cbn; rewrite andb_true_r; reflexivity|].
+  cbn [no_additional_properties forallb fst]. cbn [fst] in H1, H2, H3.
+  destruct (Z.eqb_spec k k_dollar_schema) as [e|_]; [contradiction|]. destruct (Z.eqb_spec k k_id) as [e|_]; [contradiction|]. cbn [orb].
+  destruct (has_prop s k); [rewrite IH; reflexivity|]. rewrite Hpp. cbn [existsb].
+  destruct (Z.eqb_spec k k_headers) as [e|_]; [contradiction|]. rewrite IH, r_valid_add. btauto.
+Qed.
+
+Definition add_rule (s : schema) (v : goval) : bool :=
+  match s_add_props s with Some (_, Some sa) => V sa v | _ => true end.
+
+Lemma additional_agree s p obj m : kids goodc s -> s_pat_props s = [] -> plain_members m -> forall r,
+  exists r', additional_properties OR rec_sp s p obj m r = Ok r' /\
+             r_valid r' = r_valid r && forallb (fun kv => has_prop s (fst kv) || add_rule s (snd kv)) m.
+Proof.
+  intros [_ [_ [_ [_ [_ [Ka _]]]]]] Hpp Hm. induction Hm as [|[k v] t [_ Hjv] Ht IH]; intros r; [exists r; cbn; rewrite andb_true_r; auto|].
+  cbn [additional_properties forallb fst snd]. cbn [snd] in Hjv. destruct (has_prop s k).
+  - destruct (IH r) as [r' [H1 H2]]. exists r'. split; [exact H1 | rewrite H2; reflexivity].
+  - unfold validate_pattern_property. rewrite Hpp. cbn [bind orb].
+    destruct (s_add_props s) as [[a [sa|]]|] eqn:E.
+    + assert (Har : add_rule s v = V sa v) by (unfold add_rule; rewrite E; reflexivity).
+      unfold rec. destruct (goodc_V sa (p ++ [SDot k]) (p ++ [SDot k]) v (Ka a sa eq_refl) Hjv) as [x [Hx [Hv _]]]. rewrite Hx. cbn [bind].
+      destruct (IH (merge_for_field r obj k x)) as [r' [H1 H2]]. exists r'. split; [exact H1|].
+      rewrite H2, r_valid_merge_for_field, Hv, Har. btauto.
+    + assert (Har : add_rule s v = true) by (unfold add_rule; rewrite E; reflexivity).
+      destruct (IH r) as [r' [H1 H2]]. exists r'. split; [exact H1 | rewrite H2, Har; reflexivity].
+    + assert (Har : add_rule s v = true) by (unfold add_rule; rewrite E; reflexivity).
+      destruct (IH r) as [r' [H1 H2]]. exists r'. split; [exact H1 | rewrite H2, Har; reflexivity].
+Qed.
+
+Lemma properties_agree p obj m : plain_members m -> forall props,
+  Forall (fun kc => goodc (snd kc)) props -> (forall k ps, In (k, ps) props -> s_default ps = None) -> forall r created,
+  exists r', properties_schema opt rec_sp props p obj m r created = Ok (r', created) /\
+             r_valid r' = r_valid r && forallb (fun kp => match lookup_val m (fst kp) with Some v => V (snd kp) v | None => true end) props.
+Proof.
+  intros Hm props Hg. induction Hg as [|[pname ps] t Hgp Ht IH]; intros Hdef r created; [exists r; cbn; rewrite andb_true_r; auto|].
+  cbn [properties_schema forallb fst snd]. cbv zeta. cbn [snd] in Hgp.
+  assert (Hdef' : forall k ps0, In (k, ps0) t -> s_default ps0 = None) by (intros k ps0 Hin; apply (Hdef k ps0); right; exact Hin).
+  destruct (lookup_val m pname) as [v|] eqn:E.
+  - assert (Hjv : jd v).
+    { clear - E Hm. induction Hm as [|[k' v'] t' [_ Hj] Ht' IHm]; [discriminate|]. cbn [lookup_val] in E.
+      destruct (Z.eqb pname k'); [inversion E; subst; exact Hj | apply IHm; exact E]. }
+    unfold rec. match goal with |- context [rec_sp ps ?rn ?rn v] => destruct (goodc_V ps rn rn v Hgp Hjv) as [x [Hx [Hv _]]] end.
+    rewrite Hx. cbn [bind]. destruct (IH Hdef' (merge_for_field r obj pname x) created) as [r' [H1 H2]].
+    exists r'. split; [exact H1|]. rewrite H2, r_valid_merge_for_field, Hv. btauto.
+  - rewrite (Hdef pname ps (or_introl eq_refl)). destruct (IH Hdef' r created) as [r' [H1 H2]]. exists r'. split; [exact H1 | rewrite H2; reflexivity].
+Qed.
+
+Lemma pattern_loop_none s p obj m : s_pat_props s = [] -> forall r, pattern_loop OR rec_sp s p obj m r = Ok r.
+Proof.
+  intros Hpp. induction m as [|[k v] t IH]; intros r; [reflexivity|]. cbn [pattern_loop]. unfold validate_pattern_property. rewrite Hpp.
+  cbn [bind negb]. rewrite orb_true_r. apply IH.
+Qed.
+
+Lemma required_agree s p m r :
+  r_valid (match s_required s with [] => r | _ => r_add r (required_errors s p m []) end) =
+  r_valid r && forallb (fun k => match lookup_member m k with Some _ => true | None => false end) (s_required s).
+Proof.
+  assert (H : forall l, (match flat_map (fun k => match lookup_val m k with
+                                               | Some _ => []
+                                               | None => if contains k [] then [] else [mkMsg C_REQUIRED (p ++ [SDot k]) []]
+                                               end) l with [] => true | _ => false end)
+                      = forallb (fun k => match lookup_member m k with Some _ => true | None => false end) l).
+  { induction l as [|k t IH]; [reflexivity|]. cbn [flat_map forallb contains]. rewrite (lookup_val_member m k).
+    destruct (lookup_member m k); [exact IH | reflexivity]. }
+  destruct (s_required s) as [|k0 ks] eqn:E; [cbn; rewrite andb_true_r; reflexivity|].
+  rewrite r_valid_add. unfold required_errors. rewrite E, H. reflexivity.
+Qed.
+
+Lemma precheck_off p m r : precheck opt p m r = r.
+Proof. unfold precheck. rewrite Hopt_items, Hopt_array. reflexivity. Qed.
+
+Lemma all_opt_some_forallb {A} (f : A -> option bool) (g : A -> bool) l :
+  (forall x, In x l -> f x = Some (g x)) -> all_opt (map f l) = Some (forallb g l).
+Proof.
+  induction l as [|x t IH]; intros H; [reflexivity|]. cbn [map forallb]. rewrite (H x (or_introl eq_refl)), all_opt_cons_some, IH; [reflexivity|].
+  intros y Hy. apply H. right; exact Hy.
+Qed.
+
+Lemma object_agree p s id m : kids goodc s -> object_clean s -> s_deps s = [] -> jd (VObj id m) ->
+  exists r, object_validate OR opt rec_sp p s (VObj id m) = Ok r /\ object_ok OR recd s (VObj id m) = Some (r_valid r).
+Proof.
+  intros K [Hpp [Hdef [Hnd Hfa]]] Hdeps Hjd. apply jd_obj in Hjd. destruct Hjd as [Hm Hndm].
+  pose proof K as [_ [_ [_ [Kp [_ [Ka _]]]]]].
+  unfold object_validate, object_ok. cbv zeta. set (n := Z.of_nat (length m)).
+  (* the verdict of L0 on the members *)
+  set (member_b := fun kv : str * goval =>
+         match lookup_schema (s_props s) (fst kv) with
+         | Some ps => V ps (snd kv)
+         | None => match s_add_props s with Some (_, Some sa) => V sa (snd kv) | Some (false, None) => false | _ => true end
+         end).
+  assert (Hmem : all_opt (map (fun kv : str * goval =>
+                    let (k, v) := kv in
+                    all_opt ((match lookup_schema (s_props s) k with Some ps => [recd ps v] | None => [] end) ++
+                             flat_map (fun pp => if o_re_match OR (fst pp) k then [recd (snd pp) v] else []) (s_pat_props s) ++
+                             (if match (match lookup_schema (s_props s) k with Some ps => [recd ps v] | None => [] end),
+                                        (flat_map (fun pp => if o_re_match OR (fst pp) k then [recd (snd pp) v] else []) (s_pat_props s))
+                                  with [], [] => false | _, _ => true end
+                              then []
+                              else match s_add_props s with
+                                   | Some (_, Some sa) => [recd sa v]
+                                   | Some (false, None) => [Some false]
+                                   | _ => []
+                                   end))) m) = Some (forallb member_b m)).
+  { apply all_opt_some_forallb. intros [k v] Hin. unfold member_b. cbn [fst snd]. rewrite Hpp. cbn [flat_map app].
+    assert (Hjv : jd v) by (apply (proj1 (Forall_forall _ m) Hm (k, v) Hin)).
+    destruct (lookup_schema (s_props s) k) as [ps|] eqn:E.
+    - assert (Hg : goodc ps) by (apply (lookup_schema_forall goodc _ _ _ Kp E)).
+      destruct (goodc_V ps [] [] v Hg Hjv) as [_ [_ [_ Hr]]]. rewrite Hr. cbn [app]. change (all_opt [Some (V ps v)]) with (Some (V ps v && true)). rewrite andb_true_r. reflexivity.
+    - cbn [app]. destruct (s_add_props s) as [[a [sa|]]|] eqn:Ea.
+      + destruct (goodc_V sa [] [] v (Ka a sa eq_refl) Hjv) as [_ [_ [_ Hr]]]. rewrite Hr. cbn [app]. destruct a; change (all_opt [Some (V sa v)]) with (Some (V sa v && true)); rewrite andb_true_r; reflexivity.
+      + destruct a; reflexivity.
+      + reflexivity. }
+  rewrite Hmem, Hdeps. cbn [map].
+  change (all_opt []) with (Some true).
+  set (sizes := (match s_max_props s with Some mx => n <=? mx | None => true end) && (match s_min_props s with Some mn => mn <=? n | None => true end)).
+  set (required := forallb (fun k => match lookup_member m k with Some _ => true | None => false end) (s_required s)).
+  assert (HL0 : all_opt [Some sizes; Some required; Some (forallb member_b m); Some true] = Some (sizes && (required && (forallb member_b m && (true && true))))) by reflexivity.
+  rewrite HL0.
+  destruct (match s_min_props s with Some mn => n <? mn | None => false end) eqn:Efew.
+  { eexists. split; [reflexivity|]. cbn [r_valid s_err r_errs]. f_equal. unfold sizes. destruct (s_min_props s) as [mn|]; [|discriminate].
+    rewrite (Z.leb_antisym n mn), Efew. cbn [negb]. rewrite andb_false_r. reflexivity. }
+  destruct (match s_max_props s with Some mx => mx <? n | None => false end) eqn:Emany.
+  { eexists. split; [reflexivity|]. cbn [r_valid s_err r_errs]. f_equal. unfold sizes. destruct (s_max_props s) as [mx|]; [|discriminate].
+    rewrite (Z.leb_antisym mx n), Emany. reflexivity. }
+  assert (Hsz : sizes = true).
+  { unfold sizes. destruct (s_max_props s) as [mx|]; [rewrite (Z.leb_antisym mx n), Emany|]; (destruct (s_min_props s) as [mn|]; [rewrite (Z.leb_antisym n mn), Efew|]); reflexivity. }
+  rewrite precheck_off.
+  (* additional properties *)
+  assert (H1 : exists r1, (match s_add_props s with
+                           | Some (false, _) => Ok (no_additional_properties OR s p m new_res)
+                           | _ => additional_properties OR rec_sp s p id m new_res
+                           end) = Ok r1 /\
+               r_valid r1 = forallb (fun kv => has_prop s (fst kv) ||
+                                     match s_add_props s with Some (_, Some sa) => V sa (snd kv) | Some (false, None) => false | _ => true end) m).
+  { destruct (s_add_props s) as [[[|] o]|] eqn:Ea.
+    - destruct (additional_agree s p id m K Hpp Hm new_res) as [r1 [G1 G2]]. exists r1. split; [exact G1|]. rewrite G2. unfold add_rule. rewrite Ea.
+      cbn [r_valid new_res r_errs andb]. apply forallb_ext_in. intros [k v] _. destruct o; reflexivity.
+    - destruct o as [sa|]; [exfalso; apply (Hfa sa); reflexivity|]. eexists. split; [reflexivity|].
+      rewrite (no_additional_agree s p m Hpp Hm). cbn [r_valid new_res r_errs andb]. apply forallb_ext_in. intros [k v] _. rewrite orb_false_r. reflexivity.
+    - destruct (additional_agree s p id m K Hpp Hm new_res) as [r1 [G1 G2]]. exists r1. split; [exact G1|]. rewrite G2. unfold add_rule. rewrite Ea.
+      cbn [r_valid new_res r_errs andb]. reflexivity. }
+  destruct H1 as [r1 [G1 Hv1]]. rewrite G1. cbn [bind].
+  destruct (properties_agree p id m Hm (s_props s) Kp Hdef r1 []) as [r2 [G2 Hv2]]. rewrite G2. cbn [bind].
+  rewrite (pattern_loop_none s p id m Hpp). eexists. split; [reflexivity|]. f_equal.
+  rewrite required_agree, Hv2, Hv1, Hsz. fold required.
+  rewrite <- (swap_iteration V (s_props s) m Hnd Hndm).
+  transitivity (required && (forallb (fun kv => has_prop s (fst kv) || match s_add_props s with Some (_, Some sa) => V sa (snd kv) | Some (false, None) => false | _ => true end) m &&
+                             forallb (fun kv => match lookup_schema (s_props s) (fst kv) with Some ps => V ps (snd kv) | None => true end) m)); [|btauto].
+  cbn [andb]. rewrite andb_true_r. f_equal. rewrite <- forallb_andb_pointwise. apply forallb_ext_in. intros [k v] _. unfold member_b, has_prop. cbn [fst snd].
+  destruct (lookup_schema (s_props s) k); cbn [orb andb]; [reflexivity | rewrite andb_true_r; reflexivity].
+Qed.
+
+(* ------------------------------------------------------------------ one schema level *)
+
+Definition local_clean (s : schema) : Prop :=
+  s_ref s = None /\ s_format s = 0 /\ s_nullable s = false /\ Forall jd (s_enum s) /\
+  (s_pattern s = 0 \/ o_re_ok OR (s_pattern s) = true) /\
+  array_clean s /\ object_clean s /\ comp_clean s.
+
+Lemma r_valid_r0 s : r_valid (if opt_skip_schemata opt then new_res else mkRes [] 0 [s_default s] [] []) = true.
+Proof. destruct (opt_skip_schemata opt); reflexivity. Qed.
+
+Lemma body_agree s p q d : local_clean s -> kids goodc s -> jd d ->
+  exists r, sv_body OR N opt rec_sp s p q d = Ok r /\ d4_body OR N recd s d = Some (r_valid r).
+Proof.
+  intros [_ [Hfmt [Hnull [Henum [Hpat [Harr [Hobj Hcomp]]]]]]] K Hd.
+  pose proof (type_agree p (s_types s) d Hd) as Ht.
+  pose proof (enum_agree p s d Hd Henum) as He.
+  destruct (props_agree p s d K Hcomp Hd) as [x2 [Hx2 Hc]].
+  unfold sv_body, d4_body. rewrite Hfmt, Hnull in *. rewrite Hc.
+  set (r0 := if opt_skip_schemata opt then new_res else mkRes [] 0 [s_default s] [] []).
+  assert (Hr0 : r_valid r0 = true) by apply r_valid_r0.
+  set (r1 := if type_applies (s_types s) 0 then r_inc (merge r0 (Some (type_validate N p (s_types s) false 0 d))) else r0).
+  assert (Hr1 : r_valid r1 = type_ok N s d).
+  { unfold r1, type_ok. rewrite <- Ht. destruct (type_applies (s_types s) 0); [rewrite r_valid_inc, r_valid_merge, Hr0; reflexivity | exact Hr0]. }
+  assert (Henum' : forall r6, r_valid (r_inc (merge r6 (common_validate N p s d))) = r_valid r6 && enum_ok N s d).
+  { intros r6. rewrite r_valid_inc, r_valid_merge, <- He. destruct (common_validate N p s d); reflexivity. }
+  destruct d as [|b|x|d32 f| | |id l| |id m]; try (exfalso; exact Hd).
+  - (* boolean *)
+    cbv beta iota zeta. fold r0. fold r1. rewrite Hx2. cbn [bind is_string_kind is_number_kind is_slice_kind is_map_kind format_applies andb].
+    eexists. split; [reflexivity|]. cbn [numeric_ok string_ok array_ok object_ok]. rewrite r_valid_inc, Henum', r_valid_inc, r_valid_merge, Hr1.
+    change (all_opt [Some (type_ok N s (VBool b)); Some (enum_ok N s (VBool b)); Some true; Some true; Some true; Some true; Some (r_valid x2)])
+      with (Some (type_ok N s (VBool b) && (enum_ok N s (VBool b) && (true && (true && (true && (true && (r_valid x2 && true)))))))).
+    f_equal. btauto.
+  - (* string *)
+    pose proof (string_agree p s x Hpat) as Hs.
+    cbv beta iota zeta. fold r0. fold r1. rewrite Hx2. cbn [bind is_string_kind is_number_kind is_slice_kind is_map_kind].
+    assert (Hfv : exists xf, format_validate OR p s (VStr x) = Ok xf).
+    { unfold format_validate. destruct (o_fmt_check OR (s_format s) x); eexists; reflexivity. }
+    destruct Hfv as [xf Hxf]. rewrite Hxf in *.
+    destruct (format_applies OR s (VStr x)) eqn:Ea; cbn [bind]; (eexists; split; [reflexivity|]);
+      cbn [numeric_ok array_ok object_ok]; rewrite r_valid_inc, Henum', !r_valid_inc, !r_valid_merge, Hr1, <- Hs;
+      match goal with |- all_opt [Some ?a; Some ?b; Some true; Some ?c; Some true; Some true; Some ?e] = _ =>
+        change (all_opt [Some a; Some b; Some true; Some c; Some true; Some true; Some e]) with (Some (a && (b && (true && (c && (true && (true && (e && true))))))))
+      end; f_equal; destruct (string_validate OR p s (VStr x)); btauto.
+  - (* number *)
+    cbn [jd] in Hd. pose proof (number_agree p s d32 f Hd) as Hn.
+    cbv beta iota zeta. fold r0. fold r1. rewrite Hx2. cbn [bind is_string_kind is_number_kind is_slice_kind is_map_kind format_applies andb].
+    eexists. split; [reflexivity|]. cbn [string_ok array_ok object_ok]. rewrite r_valid_inc, Henum', !r_valid_inc, !r_valid_merge, Hr1, Hn.
+    match goal with |- all_opt [Some ?a; Some ?b; Some ?c; Some true; Some true; Some true; Some ?e] = _ =>
+      change (all_opt [Some a; Some b; Some c; Some true; Some true; Some true; Some e]) with (Some (a && (b && (c && (true && (true && (true && (e && true))))))))
+    end. f_equal. btauto.
+  - (* array *)
+    apply jd_arr in Hd. destruct (slice_agree p s id l K Harr Hd) as [xs [Hxs Ha]].
+    cbv beta iota zeta. fold r0. fold r1. rewrite Hx2. cbn [bind is_string_kind is_number_kind is_slice_kind is_map_kind format_applies andb].
+    rewrite Hxs. cbn [bind]. eexists. split; [reflexivity|]. rewrite Ha. cbn [numeric_ok string_ok object_ok].
+    rewrite r_valid_inc, Henum', !r_valid_inc, !r_valid_merge, Hr1.
+    match goal with |- all_opt [Some ?a; Some ?b; Some true; Some true; Some ?c; Some true; Some ?e] = _ =>
+      change (all_opt [Some a; Some b; Some true; Some true; Some c; Some true; Some e]) with (Some (a && (b && (true && (true && (c && (true && (e && true))))))))
+    end. f_equal. btauto.
+  - (* object *)
+    destruct Hcomp as [_ Hdeps]. destruct (object_agree p s id m K Hobj Hdeps Hd) as [xo [Hxo Ho]].
+    cbv beta iota zeta. fold r0. fold r1. rewrite Hx2. cbn [bind is_string_kind is_number_kind is_slice_kind is_map_kind format_applies andb].
+    rewrite Hxo. cbn [bind]. eexists. split; [reflexivity|]. rewrite Ho. cbn [numeric_ok string_ok array_ok].
+    rewrite !r_valid_inc, !r_valid_merge, Henum', !r_valid_inc, !r_valid_merge, Hr1.
+    match goal with |- all_opt [Some ?a; Some ?b; Some true; Some true; Some true; Some ?c; Some ?e] = _ =>
+      change (all_opt [Some a; Some b; Some true; Some true; Some true; Some c; Some e]) with (Some (a && (b && (true && (true && (true && (c && (e && true))))))))
+    end. f_equal. btauto.
+Qed.
+
 End Agree.
